@@ -671,10 +671,13 @@ impl Relations {
 
     /// Replace the entry at the given index
     pub fn replace(&mut self, idx: usize, entry: Entry) {
+        // A copy of the entry that can be attached to this tree (the entry
+        // may be a handle into this or another field)
+        let entry = SyntaxNode::new_root_mut(entry.0.green().into_owned());
         let current_entry = self.get_entry(idx).unwrap();
         self.0.splice_children(
             current_entry.0.index()..current_entry.0.index() + 1,
-            vec![entry.0.into()],
+            vec![entry.into()],
         );
     }
 
